@@ -52,8 +52,13 @@ def main():
     for i, a in enumerate(sys.argv):
         if a == "--only":
             only = sys.argv[i + 1].split(",")
-    muts = sorted(os.path.join(VERIF, "seeded", d) for d in os.listdir(os.path.join(VERIF, "seeded")))
-    refs = sorted(os.path.join(VERIF, "selftest", "refactorings", d) for d in os.listdir(os.path.join(VERIF, "selftest", "refactorings")))
+    if "--heldout" in sys.argv:
+        # the final, untuned measurement (DESIGN 14.17): changes that were never used to adjust a rule and are not part of the thorough tier's corpus
+        muts = sorted(os.path.join(VERIF, "selftest", "heldout", "seeded", d) for d in os.listdir(os.path.join(VERIF, "selftest", "heldout", "seeded")))
+        refs = sorted(os.path.join(VERIF, "selftest", "heldout", "refactorings", d) for d in os.listdir(os.path.join(VERIF, "selftest", "heldout", "refactorings")))
+    else:
+        muts = sorted(os.path.join(VERIF, "seeded", d) for d in os.listdir(os.path.join(VERIF, "seeded")))
+        refs = sorted(os.path.join(VERIF, "selftest", "refactorings", d) for d in os.listdir(os.path.join(VERIF, "selftest", "refactorings")))
     if only:
         muts = [m for m in muts if os.path.basename(m)[:3] in only]
         refs = [m for m in refs if os.path.basename(m)[:3] in only]
